@@ -139,6 +139,21 @@ func (in *Interp) intrinsic(caller *frame, name string, args []value, pos token.
 		}
 		in.addInput(in.argStr(args[0]), "lz", ts...)
 		return tTrue
+	case "AltBase64":
+		st := args[0].(*Str)
+		if st.Kind == sGhost && st.G.Ctor == "b64" {
+			x := st.G.Args[0].(*Str)
+			return Tuple{ghostStr("b64alt", x), Not(Eq(URem(in.strLen(x), BVu(64, 3)), BVu(64, 0)))}
+		}
+		if c, ok := st.Concrete(); ok && len(c)%4 != 0 && len(c) > 0 {
+			const alphabet = "ABCDEFGHIJKLMNOPQRSTUVWXYZabcdefghijklmnopqrstuvwxyz0123456789-_"
+			for i := 0; i < len(alphabet); i++ {
+				if alphabet[i] == c[len(c)-1] {
+					return Tuple{lit(c[:len(c)-1] + string(alphabet[i^1])), tTrue}
+				}
+			}
+		}
+		return Tuple{st, tFalse}
 	case "Concurrent":
 		in.concurrent(args[0].(*Slice).Data)
 		return nil
